@@ -266,5 +266,5 @@ def build(ctx: RunCtx) -> Prop:
         trusted_base=["pyvc VC generator", "z3 5.1", "cvc5 1.0.3"],
         not_decided="'any finite tree of nested calls completes' is termination under fair scheduling: outside contract-based verification; "
                     "only the one-step progress lemma of the thread runner is proved.",
-        min_obligations=20,
+        min_obligations=20, parts=c09_glue.PARTS,
     )
